@@ -30,6 +30,19 @@ ASSUMPTIONS = [
 ]
 
 
+def ex(v):
+    """Exact value of a stamp: an int when it is whole (64-bit integers beyond 2**53 must not pass through a double)."""
+    try:
+        import numpy as np
+
+        if isinstance(v, (int, np.integer)) and not isinstance(v, bool):
+            return int(v)
+    except Exception:  # noqa: BLE001
+        pass
+    f = float(v)
+    return int(f) if f.is_integer() else f
+
+
 def rounded(r, fractional_column: bool):
     """(ts, dur, end) as the loader must report them, from the doubles of the file."""
     if not fractional_column:
@@ -100,13 +113,13 @@ def check(case: Dict[str, Any]) -> CaseInfo:
             require(sym[int(g["name"])] == r.name, "field:name", desc)
             require(sym[int(g["cat"])] == r.cat, "field:cat", desc)
             require(g["pid"] == r.pid and g["tid"] == r.tid, "field:pid_tid", desc)
-            require(float(g["dur"]) == float(dur), "field:dur", lambda: desc() + f" expected dur {dur}")
+            require(ex(g["dur"]) == ex(dur), "field:dur", lambda: desc() + f" expected dur {dur}")
             require(int(g["stream"]) == r.stream, "field:stream", desc)
             require(int(g["correlation"]) == int(r.correlation), "field:correlation", desc)
-            require(float(g["ts"]) == float(ts - shift), "time:ts_is_file_ts_minus_constant", lambda: desc() + f" expected ts {ts} - {shift}")
-            require(float(g["end"]) == float(g["ts"]) + float(g["dur"]), "time:end_is_ts_plus_dur", desc)
-            require(float(g["end"]) == float(end - shift), "time:end", lambda: desc() + f" expected end {end} - {shift}")
-            overall_min = float(g["ts"]) if overall_min is None else min(overall_min, float(g["ts"]))
+            require(ex(g["ts"]) == ex(ts - shift), "time:ts_is_file_ts_minus_constant", lambda: desc() + f" expected ts {ts} - {shift}")
+            require(ex(g["end"]) == ex(g["ts"]) + ex(g["dur"]), "time:end_is_ts_plus_dur", desc)
+            require(ex(g["end"]) == ex(end - shift), "time:end", lambda: desc() + f" expected end {end} - {shift}")
+            overall_min = ex(g["ts"]) if overall_min is None else min(overall_min, ex(g["ts"]))
         # rounding is inward and preserves containment / disjointness within one (pid, tid)
         items = list(exp.values())
         for r, ts, dur, end in items:
@@ -128,6 +141,8 @@ def check(case: Dict[str, Any]) -> CaseInfo:
         classes.append("fractional")
     if len(case["ranks"]) >= 2:
         classes.append("multi_rank")
+    if case.get("huge_epoch"):
+        classes.append("stamps_beyond_2**53")
     if len(case["ranks"]) > 8:
         classes.append("more_than_8_ranks")
     if case.get("mp") or mode in ("analysis", "dir"):
@@ -165,7 +180,7 @@ def campaigns(tier: str) -> List[Campaign]:
         Campaign("raw_files", raw_case(), check, quick=640, thorough=32000, quick_shards=8,
                  required_classes={"fractional": 0.3, "multi_rank": 0.4, "kind:M:": 0.25, "kind:X:Trace": 0.1, "kind:X:incomplete": 0.1,
                                    "mode:parse": 0.1, "mode:load": 0.15, "mode:analysis": 0.12, "rounding_changes_a_stamp": 0.15,
-                                   "multiprocessing": 0.2, "more_than_8_ranks": 0.025},
+                                   "multiprocessing": 0.2, "more_than_8_ranks": 0.025, "stamps_beyond_2**53": 0.04},
                  sample_view=view),
         Campaign("sim_files", sim_load_case(), check, quick=160, thorough=8000, quick_shards=8, sample_view=view),
     ]
